@@ -666,3 +666,4 @@ MANIFEST = {
     "system rule sets beyond the two of the history registry, and histories beyond the depth bound are outside.",
     "ref": "DESIGN.md §4 C14",
 }
+MANIFEST["text"] += ' A system using a group that does not exist is reported, not silently emptied.'
